@@ -33,6 +33,43 @@ def writeAll : Nat → Bytes → WScript → Nat → Bytes → Nat × WErr × By
 def terminalWrite (b : Bytes) (script : WScript) : Nat × WErr × Bytes :=
   writeAll (b.length + 1) b script 0 []
 
+/-! ### a failing call that made progress
+
+`io.Writer` allows `Write` to return `n > 0` together with an error. The script above cannot say
+that (a failing call writes nothing); this one can. `Terminal.Write` counts the bytes of the
+failing call and returns the error. -/
+
+/-- one `Write(b)` call of the backend: it accepts `min k b.length` bytes and, when `fails`,
+    also returns an error -/
+structure WCall where
+  k : Nat
+  fails : Bool
+deriving DecidableEq, Repr
+
+abbrev WScriptP := List WCall
+
+def writeAllP : Nat → Bytes → WScriptP → Nat → Bytes → Nat × WErr × Bytes
+  | 0, _, _, total, del => (total, .nil, del)
+  | fuel+1, b, script, total, del =>
+    if b.isEmpty then (total, .nil, del)
+    else
+      match script with
+      | [] => (total + b.length, .nil, del ++ b)
+      | c :: rest =>
+        let n := min c.k b.length
+        if c.fails then (total + n, .injected, del ++ b.take n)
+        else if n = 0 then (total, .shortWrite, del)
+        else writeAllP fuel (b.drop n) rest (total + n) (del ++ b.take n)
+
+def terminalWriteP (b : Bytes) (script : WScriptP) : Nat × WErr × Bytes :=
+  writeAllP (b.length + 1) b script 0 []
+
+/-- the scripts of `terminalWrite` as scripts of `terminalWriteP` -/
+def WScript.toP (s : WScript) : WScriptP :=
+  s.map fun
+    | none => ⟨0, true⟩
+    | some k => ⟨k, false⟩
+
 /-! ### the token reader's buffer (`GraphemeReader.data/start/end`) -/
 
 structure RBuf where
